@@ -446,6 +446,7 @@ inductive Ctx where
 inductive Api where
   | sync     -- `emit_batcher::sync::{blocking_flush, blocking_send}`
   | tokio    -- `emit_batcher::tokio::{blocking_flush, blocking_send}`
+  | async    -- `emit_batcher::tokio::{flush, send}` awaited inside a runtime (no blocking at all)
   deriving Repr, DecidableEq
 
 /-- How a blocking entry point waits. -/
@@ -461,6 +462,7 @@ inductive BlockingPath where
     `sync::*` never looks at the context. -/
 def blockingPath : Api → Ctx → BlockingPath
   | .sync, _ => .condvar
+  | .async, _ => .condvar   -- not blocking: awaited (listed so that the table is total; never panics)
   | .tokio, .plainThread => .condvar
   | .tokio, .tokioMultiThread => .blockInPlace
   | .tokio, .tokioCurrentThread => .condvar
@@ -478,6 +480,7 @@ def pathPanics : BlockingPath → Ctx → Bool
 /-- Receiver the blocking call runs against (stream `batcher_blocking`). -/
 inductive RxKind where
   | live | stalled | gone
+  | hangup   -- the receiver takes the batch with the watcher, never finishes it and is torn down
   deriving Repr, DecidableEq
 
 /-- The channel state before the blocking call: receiver dropped or not, then `prefill` plain sends. -/
@@ -495,6 +498,18 @@ def blockingFlush (cfg : Cfg) (rx : RxKind) (prefill timeout : Nat) : Option Boo
     | .live => [{ flag := true, timedOut := false, elapsed := 0 }]
     | _ => [{ flag := false, timedOut := true, elapsed := timeout }]
   waitTimeout timeout flag0 wakes
+
+/-- `tokio::flush` (tokio.rs:65-73): register a callback that sends on a oneshot, then `wait`. Against a live
+    receiver the callback runs; against a stalled one the timeout elapses; when the receiver is torn down while
+    it holds the watcher the oneshot hangs up. -/
+def asyncFlush (cfg : Cfg) (rx : RxKind) (prefill timeout : Nat) : Bool :=
+  let s := whenFlushed (prefillState cfg rx prefill) 0
+  let atTry : Oneshot := if 0 ∈ s.fired then .sent else .empty
+  let later : TimedRecv := match rx with
+    | .live => .received
+    | .hangup => .hungUp
+    | _ => .elapsed
+  oneshotWait timeout atTry later
 
 /-- `sync::blocking_send` (sync.rs:97-140) = `send_or_wait` with the condvar wait. Against a live receiver the
     queue has been taken when the wait returns; against a stalled one the wait lasts until the timeout. -/
